@@ -388,28 +388,72 @@ class FatPath:
                 'Cannot rename between FatFileSystem instances'))
 
         with fs.mark_dirty():
-            if target.exists():
-                target._must_not_be_dir()
-                target._refresh()
-                self._refresh()
+            self._must_exist()
+            if self.is_dir():
+                # The _index of a directory lists its content; the entry that
+                # names it lives in its parent's index
+                if self._entry is None:
+                    raise OSError(errno.EACCES, lang._(
+                        'Cannot rename the root directory'))
+                source_parts = tuple(
+                    p.lower() for p in self.resolve(strict=False)._parts)
+                target_parts = tuple(
+                    p.lower() for p in target.resolve(strict=False)._parts)
                 if (
-                    target._index.cluster == self._index.cluster and
-                    target._entry.filename == self._entry.filename and
-                    target._entry.ext == self._entry.ext
+                    len(target_parts) > len(source_parts) and
+                    target_parts[:len(source_parts)] == source_parts
+                ):
+                    raise OSError(errno.EINVAL, lang._(
+                        'Cannot move a directory into itself'))
+                source_parent = self.resolve(strict=False).parent
+                source_parent._resolve()
+                source_index = source_parent._index
+            else:
+                self._refresh()
+                source_index = self._index
+            source_entry = self._entry
+            if target.exists():
+                if target.is_dir() and target._entry is not None:
+                    target_parent = target.resolve(strict=False).parent
+                    target_parent._resolve()
+                    target_index = target_parent._index
+                else:
+                    target._must_not_be_dir()
+                    target._refresh()
+                    target_index = target._index
+                if (
+                    target_index.cluster == source_index.cluster and
+                    target._entry.filename == source_entry.filename and
+                    target._entry.ext == source_entry.ext
                 ):
                     # The target is this very entry (same name, possibly in a
                     # different case): nothing to do
                     return target
+                target._must_not_be_dir()
+                if source_entry.attr & 0x10:
+                    raise NotADirectoryError(lang._(
+                        'Not a directory: {target}'.format(target=target)))
                 target_cluster = get_cluster(target._entry, fs.fat_type)
             else:
                 target.touch()
                 target_cluster = 0
-            self._refresh()
-            target._index[target.name] = self._entry
-            del self._index[self.name]
+            target._index[target.name] = source_entry
+            del source_index[self.name]
             if target_cluster:
                 for cluster in fs.fat.chain(target_cluster):
                     fs.fat.mark_free(cluster)
+            if source_entry.attr & 0x10:
+                # The '..' entry of a moved directory names its new parent
+                new_parent = target.resolve(strict=False).parent
+                new_parent._resolve()
+                if new_parent._entry is None:
+                    parent_cluster = 0
+                else:
+                    parent_cluster = get_cluster(new_parent._entry, fs.fat_type)
+                moved = fs.open_dir(get_cluster(source_entry, fs.fat_type))
+                moved['..'] = moved['..']._replace(
+                    first_cluster_lo=parent_cluster & 0xFFFF,
+                    first_cluster_hi=parent_cluster >> 16)
             self._index = None
             self._entry = None
             # The entry is mutated by the FatDirectory when setting
